@@ -192,11 +192,15 @@ def search(ctx):
     w = _fast_history(ctx)
     if w:
         out.append(w)
+    w = _claim_moves(ctx)
+    if w:
+        out.append(w)
     return out
 
 
-def _public_path(ctx):
-    """identifier bytes inside encode_ebyte/encode_usb/encode_yacht_devices versus decode_* of the same packets"""
+def _public_path(ctx, first=None):
+    """identifier bytes inside encode_ebyte/encode_usb/encode_yacht_devices versus decode_* of the same packets.
+    first = [pgn, src, dst, prio]: that header is tried first (replay of a stored input), through every format"""
     from nmea2000.decoder import NMEA2000Decoder
     from nmea2000.encoder import NMEA2000Encoder
     dec, enc = NMEA2000Decoder(), NMEA2000Encoder()
@@ -204,7 +208,7 @@ def _public_path(ctx):
     rng = ctx.rng
     msgs = [dec.decode_basic_string("2020-01-01-00:00:00.000,6,59904,1,255,3,00,ee,00", True),
             dec.decode_basic_string("2020-01-01-00:00:00.000,2,127250,1,255,8,01,10,27,ff,7f,ff,7f,fd", True)]
-    for _ in range(ctx.n(200, 2000)):
+    for it in range(ctx.n(200, 2000)):
         m = rng.choice(msgs)
         # half of the messages repeat (source, priority) of an earlier one with another destination: the encoder object
         # is long-lived (a gateway client keeps one), nothing it remembers may leak into the next identifier
@@ -212,9 +216,15 @@ def _public_path(ctx):
             m.source, m.destination, m.priority = rng.choice([1, 2]), rng.choice([255, 0, 36, 40, 7]), rng.choice([3, 6])
         else:
             m.source, m.destination, m.priority = rng.getrandbits(8), rng.getrandbits(8), rng.getrandbits(3)
+        if first is not None and it < 4:
+            # the stored header (after 0..3 other messages through the same long-lived encoder)
+            if it == 3 or rng.random() < 0.5:
+                m = msgs[0] if first[0] == 59904 else msgs[1]
+                m.source, m.destination, m.priority = first[1], first[2], first[3]
         exp = (m.PGN, m.source, m.destination if m.PGN == 59904 else 255, m.priority)
         for fmt, e, d in (("ebyte", enc.encode_ebyte, dec.decode_tcp), ("usb", enc.encode_usb, dec.decode_usb),
-                          ("yd", enc.encode_yacht_devices, lambda b: dec.decode_yacht_devices_string("00:00:00.000 R " + b.decode()))):
+                          ("yd", enc.encode_yacht_devices, lambda b: dec.decode_yacht_devices_string("00:00:00.000 R " + b.decode())),
+                          ("actisense", lambda m_: ["A000001.000 " + enc.encode_actisense(m_)], dec.decode_actisense_string)):
             try:
                 pk = e(m)[0]
                 if fmt == "ebyte" and len(pk) < 13:
@@ -223,7 +233,9 @@ def _public_path(ctx):
                 got = (r.PGN, r.source, r.destination, r.priority)
             except Exception as ex:  # noqa: BLE001
                 got = repr(ex)
-            if got != exp:
+            want = exp if fmt != "actisense" else (m.PGN, m.source, m.destination, m.priority)   # its header word carries the destination verbatim
+            if got != want:
+                exp = want
                 out.append({"key": f"public:{fmt}", "what": f"{fmt}: header {exp} came back as {got}",
                             "kind": "public", "fmt": fmt, "hdr": list(exp)})
                 return out
@@ -290,9 +302,54 @@ def _fast_history(ctx, only=None):
     return None
 
 
+def _claim_moves(ctx, only=None):
+    """address claims on a long-lived decoder (it keeps a source map): the header reported for a claim frame is what
+    ITS identifier parses to, also when the same NAME was claimed from another address before"""
+    from nmea2000.decoder import NMEA2000Decoder
+    from props import c10 as H
+    extract, _ = _impl()
+    rng = ctx.rng
+
+    def run(pkts):
+        dec = NMEA2000Decoder()
+        for k, pkt in enumerate(pkts):
+            try:
+                r = dec.decode_tcp(pkt)
+            except Exception:  # noqa: BLE001
+                continue
+            if r is None:
+                continue
+            exp = tuple(extract(int.from_bytes(pkt[1:5], "big")))
+            got = (r.PGN, r.source, r.destination, r.priority)
+            if got != exp:
+                return {"key": "public:claim-history", "kind": "claim-moves", "pkts": [x.hex() for x in pkts[:k + 1]],
+                        "what": f"frame {k} of an address-claim history: identifier parses to (pgn, src, dst, prio) = {exp}, the returned "
+                                f"message says {got}"}
+        return None
+    if only is not None:
+        return run([bytes.fromhex(x) for x in only["pkts"]])
+    for _ in range(ctx.n(40, 400)):
+        names = [H.make_name(rng, "known") for _ in range(rng.choice([1, 2, 3]))]
+        pkts = []
+        for _ in range(rng.randint(2, 8)):
+            n = rng.choice(names)
+            src = rng.choice([1, 5, 34, 35, 64, 200, 0, 253])
+            pkts.append(H.mk_pkt(H.CLAIM, src, rng.choice([255, 255, 64, 0]), rng.getrandbits(3), n.to_bytes(8, "little")))
+            if rng.random() < 0.4:
+                pkts.append(H.mk_pkt(127250, src, 255, 2, bytes.fromhex("01102700007fff7f")))
+        w = run(pkts)
+        if w:
+            return w
+    return None
+
+
 def replay(ctx, data):
     w = data.get("witness", data)
     extract, build = _impl()
+    if w.get("kind") == "claim-moves":
+        r = _claim_moves(ctx, only=w)
+        print("observed:", r["what"] if r else "property holds on this input")
+        return r is not None
     if w.get("kind") == "fast-history":
         r = _fast_history(ctx, only=w)
         print("observed:", r["what"] if r else "property holds on this input")
@@ -302,6 +359,6 @@ def replay(ctx, data):
     elif w.get("kind") == "args":
         r = _check_args(extract, build, tuple(w["args"]))
     else:
-        r = (_public_path(ctx) or [None])[0]
+        r = (_public_path(ctx, first=w.get("hdr")) or [None])[0]
     print("observed:", r["what"] if r else "property holds on this input")
     return r is not None
